@@ -327,18 +327,39 @@ class Ctx:
         return time.time() - self.t0
 
     # ---- the translated code, run by the model driver on the inputs the implementation was run on
-    def gen_compare(self, name, cases, what=None):
+    def gen_compare(self, name, cases, what=None, tol=None):
         """cases: list of (driver argument string, expected protocol output, replay data).  The function translated
-        from the source (Generated/Kernels.lean) must return exactly what the implementation returned."""
+        from the source (Generated/Kernels.lean) must return exactly what the implementation returned (with `tol`:
+        every number within that relative tolerance - the translated code computes in exact rationals where the
+        implementation divides / sums in doubles)."""
         if not cases:
             return
+
+        def same(out, e):
+            if out == e:
+                return True
+            if tol is None:
+                return False
+            ta, tb = re.split(r"[ ,;|]", out), re.split(r"[ ,;|]", e)
+            if len(ta) != len(tb):
+                return False
+            for x, y in zip(ta, tb):
+                if x == y:
+                    continue
+                try:
+                    fx, fy = Fraction(x), Fraction(y)
+                except (ValueError, ZeroDivisionError):
+                    return False
+                if abs(fx - fy) > tol * max(1, abs(fx), abs(fy)):
+                    return False
+            return True
         outs = self.driver.run([f"gen {name} {a}" for (a, _e, _d) in cases])
         for (a, e, d), out in zip(cases, outs):
             if out == "unavailable":
                 self.count(f"translated:{name}:unavailable")
                 continue
             self.count(f"translated:{name}:compared")
-            if out != e:
+            if not same(out, e):
                 self.violation("correspondence-break", what or f"translated {name} vs the implementation",
                                {"function": name, "args": a, "translated": out, "impl": e, "input": d})
 
